@@ -198,6 +198,7 @@ open Ohkami
 /-- the operation does not set, append to or remove Content-Length by hand (the body setters manage it) -/
 def ROp.leavesCL (c : Cfg) : ROp → Prop
   | .h (.insert k _) | .h (.remove k) | .h (.append k _) => k ≠ c.kCL
+  | .x op => stdIdx c op.name ≠ some c.kCL
   | _ => True
 
 /-- the framing invariant: Content-Length says what the body is -/
@@ -227,6 +228,15 @@ theorem Fr_applyOp (c : Cfg) (ok : c.OK) (r : Resp) (op : ROp) (hi : RInv c r) (
       simp only [applyOp]
       rw [get_hop c r hi hop' hk]
       cases hop' <;> simp_all [absStd, ROp.leavesCL, Ne.symm]
+    unfold Fr at hf ⊢
+    rw [hb, hg]; exact hf
+  | x xop =>
+    have hb : (applyOp c r (.x xop)).body = r.body := rfl
+    have hg : (applyOp c r (.x xop)).headers.std.get c.kCL = r.headers.std.get c.kCL := by
+      simp only [applyOp]
+      rw [get_hop c r hi _ (resolveX_keyOk c r.headers xop)]
+      have hl' : stdIdx c xop.name ≠ some c.kCL := hl
+      cases xop <;> simp only [resolveX, XOp.name] at hl' ⊢ <;> split <;> simp_all [absStd, Ne.symm]
     unfold Fr at hf ⊢
     rw [hb, hg]; exact hf
   | payload ct b =>
